@@ -98,8 +98,12 @@ enum Comment {
 enum Text {
     #[regex(r#"[^\\"]+"#)]
     Text,
-    #[regex(r"\\.")]
+    #[regex(r"\\[\x00-\x7f]")]
     EscapeCharacter,
+    // A backslash before a non-ASCII character. `\\.` would match the backslash plus one *byte*, leaving a
+    // slice that ends inside the character.
+    #[regex(r"\\[^\x00-\x7f]")]
+    NonAsciiEscape,
     #[regex(r"\\u\{[0-9a-fA-F][_0-9a-fA-F]*\}")]
     Codepoint,
     #[regex(r"\\[0-9a-fA-F][0-9a-fA-F]")]
@@ -305,6 +309,13 @@ impl Iterator for Tokenizer<'_> {
                                 )))
                             }
                         },
+                        Some(Ok(NonAsciiEscape)) => {
+                            let c = lex.slice().chars().nth(1).unwrap_or('\\');
+                            return Some(Err(LexicalError::new(
+                                format!("Unknown escape character {c}"),
+                                lex.span(),
+                            )));
+                        }
                         Some(Ok(Codepoint)) => {
                             let slice = lex.slice();
                             let hex = slice[3..slice.len() - 1].replace('_', "");
